@@ -392,7 +392,8 @@ func checkC19(p *Prog, r *Report) {
 					rUn.Bad(c, posOf(st), "muting ends without the test that a full pause has passed since the last suppressed output: output resumes (and 'Unmuting' is announced) while the shell is still flooding")
 				}
 				/* Announcement follows. */
-				ann := reachQ{From: locOf(st), Target: isReturn, Block: func(j ssa.Instruction) bool {
+				var announces func(j ssa.Instruction, depth int) bool
+				announces = func(j ssa.Instruction, depth int) bool {
 					cc := callCommon(j)
 					if nil == cc {
 						return false
@@ -402,8 +403,19 @@ func checkC19(p *Prog, r *Report) {
 							return true
 						}
 					}
-					return false
-				}}.run()
+					/* Or the function (literal) called or started here
+					does, first thing on every way through it. */
+					callee := cc.StaticCallee()
+					if nil == callee {
+						callee, _ = closureOf(resolveLocalFunc(cc.Value))
+					}
+					if nil == callee || nil == callee.Blocks || !inModule(callee) || depth > 2 {
+						return false
+					}
+					miss := reachQ{From: entryLoc(callee), Target: isReturn, Block: func(k ssa.Instruction) bool { return announces(k, depth+1) }}.run()
+					return nil == miss
+				}
+				ann := reachQ{From: locOf(st), Target: isReturn, Block: func(j ssa.Instruction) bool { return announces(j, 0) }}.run()
 				if nil == ann {
 					rUn.OK(fnName(fn)+":announced", posOf(st), "un-muting is announced on every path")
 				} else {
